@@ -17,6 +17,9 @@ pub struct GenCfg {
     pub max_depth: usize,
     pub polars: bool,
     pub mix: Mix,
+    /// long inputs: lengths around powers of two up to `max_len` (size-threshold fast paths,
+    /// chunk boundaries), with few consumer steps; draws nothing extra when off
+    pub long: bool,
 }
 
 /// swarm: which fault / op kinds this run may use
@@ -35,6 +38,22 @@ fn gen_len(rng: &mut Rng, max_len: usize) -> usize {
         1 => 1,
         2 | 3 => rng.below(max_len.min(5) + 1),
         _ => rng.below(max_len + 1),
+    }
+}
+
+/// a length at, just below or just above a power of two (16 ..= max_len)
+fn gen_long_len(rng: &mut Rng, max_len: usize) -> usize {
+    let mut pows = vec![];
+    let mut p = 16usize;
+    while p <= max_len {
+        pows.push(p);
+        p *= 2;
+    }
+    let p = *rng.pick(&pows);
+    match rng.below(4) {
+        0 => p - 1,
+        1 => p + 1,
+        _ => p,
     }
 }
 
@@ -468,7 +487,7 @@ pub fn gen_pipe(rng: &mut Rng, cfg: &GenCfg) -> Pipe {
     } else {
         *rng.pick(&[Ty::F64, Ty::F64, Ty::F64, Ty::I32, Ty::I32, Ty::OptF64, Ty::OptF64, Ty::OptI32, Ty::Trk])
     };
-    let len = gen_len(rng, cfg.max_len);
+    let len = if cfg.long { gen_long_len(rng, cfg.max_len) } else { gen_len(rng, cfg.max_len) };
     let data = gen_data(rng, ty, len);
     let backend = if sinks && rng.chance(7, 10) { Backend::Sim } else { gen_backend(rng, ty, cfg, false, len) };
     let item_ty = backend_item_ty(ty, &backend);
@@ -504,7 +523,7 @@ pub fn gen_pipe(rng: &mut Rng, cfg: &GenCfg) -> Pipe {
         rem: model_len_after_view(&root, len),
         depth: 1,
     };
-    let max_ops = if sinks { 4 } else { 2 * len + 8 };
+    let max_ops = if sinks { 4 } else if cfg.long { 12 } else { 2 * len + 8 };
     let n_ops = match rng.below(4) {
         0 => rng.below(3),
         1 => rng.below(max_ops.min(6) + 1),
